@@ -217,6 +217,48 @@ Proof.
   destruct Hinv as (Hdiag & _). cbn [lat_dense dn_w]. rewrite (Hdiag o). ring.
 Qed.
 
+(* the remaining statements are LinearDense's, read on the masked parameters *)
+Theorem lateral_delayed_eq_undelayed_on_shifted (kk : nat -> nat -> nat) :
+  (forall o i, (o < n)%nat -> (i < n)%nat -> on_grid_delay c (mat_at d o i) (kk o i)) ->
+  exists s' out, dense_forward RN (lat_dense RN l) c s xsh xs inj = (s', SOk (B :: Conn.l_shape RN l, out)) /\
+    forall b o, (b < B)%nat -> (o < n)%nat ->
+      nth (b * n + o) out 0 =
+      Rsum n (fun i => mat_at (Conn.l_w RN l) o i *
+                       nth (b * n + i) (cur_out RN (undelayed c) (shifted (undelayed c) p' (kk o i))) 0)
+      + bias_at (Conn.l_b RN l) o.
+Proof. exact (dense_delayed_eq_undelayed_on_shifted (lat_dense RN l) c s p I Hc Hshape HW Hb Hn xsh xs inj Hxsh Hx d Hd Hdel kk). Qed.
+
+Theorem lateral_delay_zero_is_undelayed (s0 : synR) :
+  (forall o i, (o < n)%nat -> (i < n)%nat -> 0 <= mat_at d o i <= cdelay RN c /\ Rabs (mat_at d o i) <= ctol RN c) ->
+  Inv RN (undelayed c) s0 p ->
+  exists s' s0' out,
+    dense_forward RN (lat_dense RN l) c s xsh xs inj = (s', SOk (B :: Conn.l_shape RN l, out)) /\
+    dense_forward RN (dense_no_delay (lat_dense RN l)) (undelayed c) s0 xsh xs inj = (s0', SOk (B :: Conn.l_shape RN l, out)).
+Proof. exact (dense_delay_zero_is_undelayed (lat_dense RN l) c s p I Hc Hshape HW Hb Hn xsh xs inj Hxsh Hx d Hd Hdel s0). Qed.
+
+Theorem lateral_offgrid_reads_interpolated :
+  (forall o i, (o < n)%nat -> (i < n)%nat ->
+     0 <= mat_at d o i <= cdelay RN c /\ forall z, ctol RN c < Rabs (IZR z * cdt RN c - mat_at d o i)) ->
+  exists s' out, dense_forward RN (lat_dense RN l) c s xsh xs inj = (s', SOk (B :: Conn.l_shape RN l, out)) /\
+    forall b o, (b < B)%nat -> (o < n)%nat ->
+      nth (b * n + o) out 0 =
+      Rsum n (fun i => mat_at (Conn.l_w RN l) o i * between_cur c p' (b * n + i) (mat_at d o i)) + bias_at (Conn.l_b RN l) o.
+Proof. exact (dense_offgrid_reads_interpolated (lat_dense RN l) c s p I Hc Hshape HW Hb Hn xsh xs inj Hxsh Hx d Hd Hdel). Qed.
+
+Theorem lateral_views_agree_with_forward (kk : nat -> nat -> nat) :
+  (forall o i, (o < n)%nat -> (i < n)%nat -> on_grid_delay c (mat_at d o i) (kk o i)) ->
+  exists s' out vc vs,
+    dense_forward RN (lat_dense RN l) c s xsh xs inj = (s', SOk (B :: Conn.l_shape RN l, out)) /\
+    syncurrent RN c s' (has (Conn.l_d RN l)) (dense_selector RN (lat_dense RN l)) = SOk ([B; n; n], vc) /\
+    synspike RN c s' (has (Conn.l_d RN l)) (dense_selector RN (lat_dense RN l)) = SOk ([B; n; n], vs) /\
+    (forall b i o, (b < B)%nat -> (i < n)%nat -> (o < n)%nat ->
+       nth ((b * n + i) * n + o) vc 0 = value_ago c p' (kk o i) (b * n + i) /\
+       nth ((b * n + i) * n + o) vs 0 = spike_ago c p' (kk o i) (b * n + i)) /\
+    (forall b o, (b < B)%nat -> (o < n)%nat ->
+       nth (b * n + o) out 0 =
+       Rsum n (fun i => mat_at (Conn.l_w RN l) o i * nth ((b * n + i) * n + o) vc 0) + bias_at (Conn.l_b RN l) o).
+Proof. exact (dense_views_agree_with_forward (lat_dense RN l) c s p I Hc Hshape HW Hb Hn xsh xs inj Hxsh Hx d Hd Hdel kk). Qed.
+
 (* the masked delay tensor has a zero diagonal as well (the self-delay is never used) *)
 Theorem lateral_self_delay_zero o : mat_at d o o = 0.
 Proof. destruct Hinv as (_ & H). rewrite Hd in H. apply H. Qed.
